@@ -34,9 +34,9 @@ func (*prop) Assumptions() []string {
 }
 func (*prop) MinDistinct(tier string) int64 {
 	if tier == "thorough" {
-		return 300_000
+		return 200000
 	}
-	return 20_000
+	return 20000
 }
 
 const target = "example.com/target"
